@@ -213,6 +213,9 @@ func (P *curvePoint) UnmarshalBinary(buf []byte) error {
 
 	P.x = new(big.Int).SetBytes(buf[1 : 1+byteLen])
 	P.y = new(big.Int).SetBytes(buf[1+byteLen : 1+2*byteLen])
+	if !P.Valid() {
+		return errors.New("invalid elliptic curve point")
+	}
 	return nil
 }
 
